@@ -676,3 +676,5 @@ CHECKS["C02"]["jobs"].append(J("agent-table", AGENT, "TestC02AgentTable", {"shar
 CHECKS["C02"]["required_classes"]["all"] += ["agent-table:empty", "agent-table:unknown-pid"]
 CHECKS["C03"]["jobs"].append(J("subdir-files", VSTORE, "TestC16CheckExact", {"shards": 2, "checks": 300}, {"shards": 8, "checks": 10000}))
 CHECKS["C03"]["required_classes"]["all"] += ["sub-directory-holding-files-named-like-hash-files"]
+CHECKS["C12"]["required_classes"]["all"] += ["burst:some-upgrades-were-dropped"]
+CHECKS["C10"]["required_classes"]["all"] += ["agent-with-password-policy(stored passwords do not meet it)"]
